@@ -122,8 +122,11 @@ def conc(case):
     if c.get("c3") is not None:
         c["c3"] = c14.signed_vals(c["c3"], "int64")
     got = outcome(lambda: run(c, p))
+    canon = True
     if got["k"] == "tuple" and got["items"][0]["k"] == "tuple" and len(got["items"][0]["items"]) == 4:
-        got["items"][0] = dict(k="tuple", items=got["items"][0]["items"][:2])      # decoded content only
+        from . import c15
+        canon = c15._canonical_concrete(got["items"][0], need_distinct=(kind == "rr"))
+        got["items"][0] = dict(k="tuple", items=got["items"][0]["items"][:2] + [dict(k="scalar", val=canon, dtype="py")])      # decoded content + canonical-form verdict
     da = typed(c["a"], dta)
     A = common.ref_array
     a_obs = A(c["a"], [len(c["a"])], dta)
@@ -148,14 +151,14 @@ def conc(case):
         e = da + c["s"] if op == "add" else da - c["s"] if op == "subtract" else c["s"] - da
     else:
         e = np.concatenate([da, typed(c["b"], "int64")] + ([typed(c["c3"], "int64")] if c.get("c3") is not None else []))
-    exp = dict(k="tuple", items=[dict(k="any"), A(cells(e), [len(e)], str(e.dtype))])
+    exp = dict(k="tuple", items=[dict(k="any"), A(cells(e), [len(e)], str(e.dtype)), dict(k="scalar", val=True, dtype="py")])
     return got, dict(k="tuple", items=[exp, a_obs, b_obs if kind == "rr" else dict(k="any")])
 
 
 def _strip_sym(got):
     if got["k"] == "tuple" and got["items"][0]["k"] == "tuple" and len(got["items"][0]["items"]) == 4:
         g = dict(got)
-        g["items"] = [dict(k="tuple", items=got["items"][0]["items"][:2])] + got["items"][1:]
+        g["items"] = [dict(k="tuple", items=got["items"][0]["items"][:2] + [dict(k="scalar", val=True, dtype="py")])] + got["items"][1:]
         return g
     return got
 
